@@ -348,4 +348,22 @@ theorem revoke_token_none (p : Pairing) (now : Nat) (id tok : String)
     intro _ htok
     exact hid (h t htm htok)
 
+/-! ## Token-count bound -/
+
+/-- Number of enabled entries (what `PAIRING_MAX_TOKENS` bounds). -/
+def enabledCount (ts : List PToken) : Nat := (ts.filter (·.enabled)).length
+
+theorem enabledCount_prune_le (now : Nat) (ts : List PToken) :
+    enabledCount (prune now ts) ≤ enabledCount ts := by
+  unfold enabledCount prune
+  rw [List.filter_filter]
+  have : ts.filter (fun a => a.enabled && decide (now ≤ a.expiresAt)) =
+      (ts.filter (·.enabled)).filter (fun a => decide (now ≤ a.expiresAt)) := by
+    rw [List.filter_filter]
+    congr 1
+    funext a
+    exact Bool.and_comm _ _
+  rw [this]
+  exact List.length_filter_le _ _
+
 end TrustVerif.C18
